@@ -244,26 +244,34 @@ def type_ (s : MState) (now : Int) (key : Bytes) : R :=
   | some v => (s, .str (Bytes.ofString (typeName v.typeCode)))
   | none => (s, .panic)
 
-/-- `Scan(cursor, match, count, typ)`: positional cursor over the index -/
+/-- `Scan(cursor, match, count, typ)`: positional cursor over the index. A cursor is the 1-based
+    position of the first entry to visit (0 = from the start); the reply's cursor is the position of
+    the first entry not visited, or 0 when the scan reached the end. -/
 def scan (s : MState) (now : Int) (cursor : Int) (pat : Bytes) (count : Int) (typ : Nat) : R :=
   let keyLen : Int := s.index.length
   if keyLen = 0 then (s, .many [.int 0, .slist []]) else
-  if cursor ≥ keyLen then (s, .many [.int 0, .slist []]) else
-  -- the closure over the btree scan, as a fold with early exit
+  if cursor > keyLen then (s, .many [.int 0, .slist []]) else
+  -- the closure over the btree scan, as a fold with early exit; `none` cursor = ran off the end
   let rec go (ents : List (Bytes × Meta)) (s : MState) (cursor iter count : Int) (acc : List Bytes) : MState × Int × List Bytes :=
     match ents with
-    | [] => (s, iter, acc.reverse)
+    | [] => (s, 0, acc.reverse)
     | (key, m) :: rest =>
       let iter := iter + 1
       let cursor := wrap64 (cursor - 1)          -- `cursor--` wraps at int64 min
       if cursor > 0 then go rest s cursor iter count acc else
-      if iter > keyLen then (s, 0, acc.reverse) else
       if count = 0 then (s, iter, acc.reverse) else
       let count := wrap64 (count - 1)
       -- rLockKey: count++
       let s := modMeta s key fun m => { m with count := m.count + 1 }
       if Glob.matched pat key && !m.expired now then
-        if typ ≠ 0 ∧ m.vtype ≠ typ then go rest s cursor iter count acc
+        -- a record that never had its value loaded does not know its type: load it for a TYPE filter
+        let (s, vt) :=
+          if typ ≠ 0 ∧ m.vtype = 0 ∧ m.value.isNone then
+            match loadValue s key m with
+            | some (v, oid) => (modMeta s key fun m' => ({ m' with oid := oid }.setValue v), v.typeCode)
+            | none => (s, m.vtype)
+          else (s, m.vtype)
+        if typ ≠ 0 ∧ vt ≠ typ then go rest s cursor iter count acc
         else go rest s cursor iter count (key :: acc)
       else go rest s cursor iter count acc
   let (s, next, ks) := go s.index s cursor 0 count []
